@@ -181,7 +181,7 @@ def gen_value(rng, spec, n=None):
         if isinstance(L, tuple):
             L = L[rng.integers(len(L))]
         if L is None:
-            L = int(rng.integers(1, 6))
+            L = int(rng.integers(1, 6)) if rng.random() > 0.04 else int([16, 33, 64, 100, 257][rng.integers(5)])     # (now and then a long vector)
         return gen.vec(rng, L, 1e-2, 1e2)
     if k == 'AN3':
         return rng.uniform(-3, 3, size=(int(rng.integers(2, 5)), 3))
